@@ -55,6 +55,14 @@ class World:
                     r["job"] = r["name"].replace(".token", "")
                 r.pop("seq", None)
                 out.append(r)
+        # a process reports its first recount (tok.init) after having done it: whatever it logged before -- its reclaim
+        # threads are started by that recount -- happened afterwards
+        for p in {r.get("p") for r in out if r["e"] == "tok.init"}:
+            i = next(k for k, r in enumerate(out) if r["e"] == "tok.init" and r.get("p") == p)
+            w = max([k for k, r in enumerate(out[:i]) if r["e"] == "tok.info.write" and r.get("p") == p], default=-1)
+            own = [k for k in range(w + 1, i) if out[k].get("p") == p]
+            if own:
+                out.insert(own[0], out.pop(i))
         return out
 
     def mark(self):
@@ -304,6 +312,31 @@ def sc_orphan_killed():
     return w.close()
 
 
+def sc_two_killed_orphans():
+    """two jobs of a dead scheduler are killed (their pid files stay behind); a scheduler that starts afterwards finds two
+    token files at once: its first recount starts two reclaim threads at the same time, both of which have to rebuild a
+    process from a pid file -- the first use of the process-handler table of that scheduler, twice at once"""
+    w = World(2, {"a": "p1", "b": "p1", "c": "p2"}, {"a": 1, "b": 1, "c": 2})
+    w.start("p1")
+    w.submit("a"); w.submit("b")
+    w.acquire("a"); w.startjob("a")
+    w.acquire("b"); w.startjob("b")
+    w.kill("p1")
+    w.killjob("a"); w.killjob("b")
+    m = w.mark()
+    w.start("p2")
+    if w.procs["p2"].poll() is None:
+        w.wait_event(lambda r: r["e"] == "tok.file.delete" and r.get("job") == "a", 15, m)
+        w.wait_event(lambda r: r["e"] == "tok.file.delete" and r.get("job") == "b", 15, m)
+        w.quiescent()
+        w.submit("c")
+        r = w.acquire("c")
+        if r and r.get("acquired"):
+            w.release("c")
+    w.quiescent(0.3)
+    return w.close()
+
+
 def sc_late_start_two():
     """a scheduler starts while two jobs of another one hold the token: its first recount starts two reclaim threads at
     once (first use of the process handlers in that process); the jobs end one after the other"""
@@ -480,7 +513,7 @@ def sc_info_torn():
     return w.close()
 
 
-SCENARIOS = {"larger_again": sc_larger_again, "info_torn": sc_info_torn, "enlarged": sc_enlarged, "enlarged_while_held": sc_enlarged_while_held, "orphan_killed": sc_orphan_killed, "late_start_two": sc_late_start_two, "race_in_create": sc_race_in_create, "contention": sc_contention, "halfwritten": sc_halfwritten, "owner_dies_running": sc_owner_dies_running,
+SCENARIOS = {"two_killed_orphans": sc_two_killed_orphans, "larger_again": sc_larger_again, "info_torn": sc_info_torn, "enlarged": sc_enlarged, "enlarged_while_held": sc_enlarged_while_held, "orphan_killed": sc_orphan_killed, "late_start_two": sc_late_start_two, "race_in_create": sc_race_in_create, "contention": sc_contention, "halfwritten": sc_halfwritten, "owner_dies_running": sc_owner_dies_running,
              "dies_mid_create": sc_dies_mid_create, "partial_returns": sc_partial_returns, "mixed": sc_mixed}
 
 if __name__ == "__main__":
